@@ -51,7 +51,11 @@ class H(explore.Harness):
         self.rig.acc.handler = self._handler
         self._add_listener("L1")
         self.secure_connections = 0
-        self.rig.connect()
+        try:
+            self.rig.connect()
+        except Exception as e:  # noqa: BLE001
+            # an honest accessory (whatever legal spelling / block sizes this configuration gives it) that the controller cannot even connect to
+            self.viol.append((f"initial-connection-to-an-honest-accessory-fails:{type(e).__name__}", {"env": p.get("env"), "err": str(e)[:160]}))
         self.loop.run_until_idle()
         self._post()
 
